@@ -117,9 +117,9 @@ func mk(kind, attr, text string) string {
 	return "«" + kind + ":" + attr + "|" + text + "»"
 }
 
-func (g *gen) push()             { g.scopes = append(g.scopes, nil) }
-func (g *gen) pop()              { g.scopes = g.scopes[:len(g.scopes)-1] }
-func (g *gen) declare(v gvar)    { g.scopes[len(g.scopes)-1] = append(g.scopes[len(g.scopes)-1], v) }
+func (g *gen) push()                 { g.scopes = append(g.scopes, nil) }
+func (g *gen) pop()                  { g.scopes = g.scopes[:len(g.scopes)-1] }
+func (g *gen) declare(v gvar)        { g.scopes[len(g.scopes)-1] = append(g.scopes[len(g.scopes)-1], v) }
 func (g *gen) fresh(p string) string { g.nVar++; return fmt.Sprintf("%s%d", p, g.nVar) }
 
 // varsOf returns visible variables of exactly type t (locals first, then globals).
@@ -895,6 +895,14 @@ func GenProgram(seed uint64, feat genFeat) (mods map[string]string, tags []strin
 	g.fns = append(append([]*gfn{}, libFns...), own...)
 	for _, f := range own {
 		g.function(&sb, f, false)
+	}
+	// a function nobody calls: a duplicated parameter is its only fault (no arity error elsewhere)
+	if g.r.Chance(1, 2) {
+		u := g.signature("unused_fn")
+		if len(u.params) == 0 {
+			u.params = append(u.params, gvar{g.fresh("a"), g.ty(1)})
+		}
+		g.function(&sb, u, g.r.Bool())
 	}
 	// main
 	g.scopes = nil
